@@ -366,6 +366,9 @@ void harness(void)
   VP_ASSERT(C19, c.env_behavior == f.env_behavior && c.env_extra == f.env_extra &&
                      c.working_directory == f.working_directory,
             "a copy of options loses env / working_directory");
+  VP_ASSERT(C03, c.env_behavior == f.env_behavior && c.env_extra == f.env_extra &&
+                     c.working_directory == f.working_directory,
+            "reproc++: a copy of options (as made by run) changes environment behaviour, extra entries or working directory");
   VP_ASSERT(C19, c.in.type == f.in.type && c.in.handle == f.in.handle && c.in.file == f.in.file && c.in.path == f.in.path &&
                      c.out.type == f.out.type && c.out.handle == f.out.handle && c.out.file == f.out.file &&
                      c.out.path == f.out.path && c.err.type == f.err.type && c.err.handle == f.err.handle &&
